@@ -522,7 +522,7 @@ impl<'a> Runner<'a> {
                             Ok(async_device::SendResponse::NoAck) => resp_json("NoAck", 0),
                             Ok(async_device::SendResponse::RxComplete) => resp_json("RxComplete", 0),
                             #[cfg(feature = "mc")]
-                            Ok(async_device::SendResponse::Multicast(m)) => json!({"k": "Multicast", "v": 0, "s": format!("{m:?}")}),
+                            Ok(async_device::SendResponse::Multicast(m)) => mc_resp_json(&m),
                             Err(async_device::Error::Radio(_)) => resp_json("ErrRadio", 0),
                             Err(async_device::Error::Mac(_)) => resp_json("ErrMac", 0),
                         })
@@ -800,7 +800,8 @@ fn run_typed<const P: u8, const G: i8, const N: usize>(out: &mut TraceWriter, op
     let ev = json!({"ev": "reset", "region": region, "front": front, "classc": *classc as u8,
         "maxpw": P, "gain": G, "board": board, "bufsz": N, "bias_sb": bias_sb, "bias_retries": bias_retries,
         "lead": lead, "buffer": buffer, "offset": offset, "duration": duration,
-        "seeded": session.is_some() as u8, "cert": cfg!(feature = "cert") as u8, "mc": cfg!(feature = "mc") as u8});
+        "seeded": session.is_some() as u8, "cert": cfg!(feature = "cert") as u8, "mc": cfg!(feature = "mc") as u8,
+        "genappkey": if cfg!(feature = "mc") { bytes(&[9u8; 16]) } else { json!([]) }});
     r.emit(&mut dev, ev, Some(&ops[0]));
     let mut executed: Vec<Op> = vec![ops[0].clone()];
     let mut steps = 0usize;
@@ -2535,7 +2536,314 @@ pub fn vh_mcdata(a: &Args) {
             h += 1;
         }
     }
+    // ---- the group table: set-up / status / delete requests and frames of several groups (McTrace.tla decodes
+    // every heard and every transmitted frame itself; nothing below tells it what to expect)
+    for script in mc_table_scripts(a.seed, if a.thorough { 120 } else { 24 }) {
+        let ops = vec![
+            Op::Reset { region: "EU868".into(), front: "async".into(), classc: true, board: 0, bias_sb: 0, bias_retries: 1,
+                        lead: 10, buffer: 10, offset: 0, duration: 500, session: None },
+            Op::JoinAbp { nwk: key, app: key, addr },
+            Op::SetDr { dr: 5 },
+        ];
+        let mut idx = 0usize;
+        let mut g = |view: &View| -> Option<Op> {
+            let step = script.get(idx)?.clone();
+            idx += 1;
+            let plain = || Proc { tx: "done".into(), ts: 100, fault: -1, ..Default::default() };
+            Some(match step {
+                McStep::Setup { cmds, via } => {
+                    let (nwk, app, ad) = view.keys?;
+                    let net = Net { nwk, app, addr: ad, sent: vec![] };
+                    let n = view.fcnt_down.map(|x| x + 1).unwrap_or(0);
+                    let f = Frame { bytes: net.data(n, false, false, &[], 200, &cmds, false, false), snr: 3, intent: "mc:setup".into() };
+                    match via {
+                        0 | 1 => {
+                            let mut plan = plain();
+                            if via == 0 { plan.rx1.push(f) } else { plan.rx2.push(f) }
+                            Op::Send { port: 1, data: vec![7], confirmed: false, draws: vec![], plan }
+                        }
+                        _ => Op::Rxc { frames: vec![f] },
+                    }
+                }
+                McStep::Hear { frame, slot } => {
+                    let f = Frame { bytes: frame, snr: 3, intent: "mc:data".into() };
+                    if slot > 3 {
+                        Op::Rxc { frames: vec![f] }
+                    } else {
+                        let mut plan = plain();
+                        match slot {
+                            0 => plan.rx1.push(f),
+                            1 => plan.rx2.push(f),
+                            2 => plan.c1.push(f),
+                            _ => plan.c2.push(f),
+                        }
+                        Op::Send { port: 2, data: vec![slot], confirmed: false, draws: vec![], plan }
+                    }
+                }
+                McStep::Group(op) => op,
+                McStep::Take => Op::TakeDl,
+                McStep::Send => Op::Send { port: 1, data: vec![8], confirmed: false, draws: vec![], plan: plain() },
+            })
+        };
+        let _ = run_history(out.shard(h), &ops, a.seed ^ h as u64, Some(&mut g));
+        h += 1;
+    }
     println!("events={} histories={h}", out.finish());
+}
+
+/// One step of a group-table history (`vh mcdata`).
+#[derive(Clone)]
+enum McStep {
+    /// set-up commands as the FRMPayload of an authentic unicast downlink on FPort 200: via 0 = RX1, 1 = RX2, 2 = Class C listening
+    Setup { cmds: Vec<u8>, via: u8 },
+    /// a frame heard: slot 0 = RX1, 1 = RX2, 2 = before RX1, 3 = between the windows (of an uplink), 4 = listening outside a procedure
+    Hear { frame: Vec<u8>, slot: u8 },
+    /// cross-check marker: the group as the network side holds it
+    Group(Op),
+    Take,
+    Send,
+}
+
+/// The network side of one multicast group.
+#[derive(Clone)]
+struct McNet {
+    g: u8,
+    addr: [u8; 4],
+    keyenc: [u8; 16],
+    nwk: [u8; 16],
+    app: [u8; 16],
+    min: u32,
+    max: u32,
+    /// the next counter the network would use
+    next: u32,
+}
+
+const MC_GEN_APP_KEY: [u8; 16] = [9u8; 16];
+
+impl McNet {
+    fn new(g: u8, addr: [u8; 4], keyenc: [u8; 16], min: u32, max: u32) -> McNet {
+        use lorawan::default_crypto::DefaultCrypto;
+        use lorawan::keys::{Crypto as _, AES128};
+        let enc = |k: &[u8; 16], mut b: [u8; 16]| -> [u8; 16] {
+            DefaultCrypto::new(&AES128(*k)).encrypt_block(&mut b);
+            b
+        };
+        let root = enc(&MC_GEN_APP_KEY, [0; 16]);
+        let ke = enc(&root, [0; 16]);
+        let mckey = enc(&ke, keyenc);
+        let mut blk = [0u8; 16];
+        blk[0] = 1;
+        blk[1..5].copy_from_slice(&addr);
+        let app = enc(&mckey, blk);
+        blk[0] = 2;
+        let nwk = enc(&mckey, blk);
+        McNet { g, addr, keyenc, nwk, app, min, max, next: min }
+    }
+    fn setup_cmd(&self) -> Vec<u8> {
+        let mut v = vec![0x02u8, self.g];
+        v.extend(self.addr);
+        v.extend(self.keyenc);
+        v.extend(self.min.to_le_bytes());
+        v.extend(self.max.to_le_bytes());
+        v
+    }
+    fn marker(&self) -> McStep {
+        McStep::Group(Op::McGroup { g: self.g, addr: self.addr, keyenc: self.keyenc, genappkey: MC_GEN_APP_KEY, nwk: self.nwk, app: self.app,
+                                    min: self.min, max: self.max })
+    }
+    fn frame(&self, n: u32, port: i32, tag: u8) -> Vec<u8> {
+        let net = Net { nwk: self.nwk, app: self.app, addr: self.addr, sent: vec![] };
+        net.data(n, false, false, &[], port, &[tag, n as u8, (n >> 8) as u8, self.g], false, false)
+    }
+}
+
+/// Scripted and seeded-random histories over the group table.
+fn mc_table_scripts(seed: u64, nrandom: usize) -> Vec<Vec<McStep>> {
+    use McStep::*;
+    let a_ = [0x11u8, 0x22, 0x33, 0x44];
+    let b_ = [0x21u8, 0x22, 0x33, 0x44];
+    let c_ = [0x31u8, 0x22, 0x33, 0x44];
+    let k = |x: u8| [x; 16];
+    let hear = |n: &McNet, cnt: u32, slot: u8| Hear { frame: n.frame(cnt, 201 + (cnt % 5) as i32, 0xC0 | slot), slot };
+    let mut out: Vec<Vec<McStep>> = vec![];
+    // T1: two groups, status, delete, frames of a deleted group, two groups under one address
+    {
+        let g0 = McNet::new(0, a_, k(0x5a), 0, 100);
+        let g1 = McNet::new(1, b_, k(0x5b), 10, 20);
+        let g0b = McNet::new(0, b_, k(0x5c), 5, 50);
+        out.push(vec![
+            Setup { cmds: g0.setup_cmd(), via: 0 }, g0.marker(),
+            Setup { cmds: g1.setup_cmd(), via: 1 }, g1.marker(),
+            hear(&g0, 0, 4), hear(&g1, 10, 4), hear(&g1, 9, 4),
+            Setup { cmds: vec![0x01, 0x0f], via: 2 },
+            Setup { cmds: vec![0x03, 0x00], via: 0 },
+            hear(&g0, 1, 4),
+            Setup { cmds: vec![0x01, 0x0f, 0x03, 0x00, 0x03, 0x02, 0x01, 0x01], via: 0 },
+            Setup { cmds: g0b.setup_cmd(), via: 0 }, g0b.marker(),
+            hear(&g0b, 5, 4), hear(&g1, 11, 4),
+            Setup { cmds: vec![0x03, 0x00], via: 2 },
+            hear(&g1, 11, 4), hear(&g0b, 6, 4),
+            Take, Send,
+        ]);
+    }
+    // T2: the same group set up again (the counter restarts at the new minMcFCount), then under a new key
+    {
+        let g2 = McNet::new(2, a_, k(0x5a), 0, 10);
+        let g2n = McNet::new(2, a_, k(0x77), 100, 200);
+        out.push(vec![
+            Setup { cmds: g2.setup_cmd(), via: 0 }, g2.marker(),
+            hear(&g2, 0, 4), hear(&g2, 1, 4), hear(&g2, 2, 4),
+            Setup { cmds: g2.setup_cmd(), via: 2 }, g2.marker(),
+            hear(&g2, 0, 4), hear(&g2, 0, 4),
+            Setup { cmds: g2n.setup_cmd(), via: 1 }, g2n.marker(),
+            hear(&g2, 3, 4), hear(&g2n, 100, 4), hear(&g2n, 99, 4), hear(&g2n, 199, 4), hear(&g2n, 200, 4),
+            Take, Send,
+        ]);
+    }
+    // T3: several requests in one frame
+    {
+        let g3 = McNet::new(3, c_, k(0x13), 0, 0xFFFF_FFFF);
+        let mut cmds = vec![0x00u8];
+        cmds.extend(g3.setup_cmd());
+        cmds.extend([0x01, 0x08, 0x03, 0x03, 0x01, 0x0f, 0x00]);
+        let mut again = g3.setup_cmd();
+        again.extend([0x01, 0x08]);
+        out.push(vec![
+            Setup { cmds, via: 0 },
+            hear(&g3, 0, 4),
+            Setup { cmds: again, via: 0 }, g3.marker(),
+            hear(&g3, 70000, 4), hear(&g3, 70000, 4), hear(&g3, 4464, 4), hear(&g3, 70001, 4),
+            Take, Send,
+        ]);
+    }
+    // T4: requests the library does not implement, unknown and truncated requests inside a stream
+    {
+        let g1 = McNet::new(1, a_, k(0x21), 0, 9);
+        let mut classc = vec![0x01u8, 0x0f, 0x04, 0x01];
+        classc.extend([0u8; 9]);
+        classc.extend([0x01, 0x02]);
+        let mut classb = vec![0x05u8, 0x01];
+        classb.extend([0u8; 9]);
+        let mut trunc = g1.setup_cmd();
+        trunc.truncate(20);
+        let mut unknown = vec![0x01u8, 0x0f, 0x7f];
+        unknown.extend(McNet::new(2, b_, k(0x22), 0, 9).setup_cmd());
+        out.push(vec![
+            Setup { cmds: g1.setup_cmd(), via: 0 }, g1.marker(),
+            Setup { cmds: classc, via: 0 },
+            Setup { cmds: classb, via: 0 },
+            Setup { cmds: trunc, via: 0 },
+            Setup { cmds: unknown, via: 0 },
+            Setup { cmds: vec![0x01, 0x0f], via: 1 },
+            hear(&g1, 0, 4),
+            Take, Send,
+        ]);
+    }
+    // T5: answers beyond the 242 octets of one uplink (requests without effect only)
+    {
+        let gs: Vec<McNet> = (0..4u8).map(|g| McNet::new(g, [0x40 + g, 0x22, 0x33, 0x44], k(0x30 + g), 0, 5)).collect();
+        let mut v = vec![];
+        for g in &gs {
+            v.push(Setup { cmds: g.setup_cmd(), via: 0 });
+            v.push(g.marker());
+        }
+        let mut many = [0x01u8, 0x0f].repeat(12);
+        many.push(0x00);
+        v.push(Setup { cmds: many, via: 0 });
+        let mut vers = vec![0x00u8; 81];
+        vers.extend([0x01, 0x00]);
+        v.push(Setup { cmds: vers, via: 0 });
+        v.push(Setup { cmds: [0x01u8, 0x05].repeat(20), via: 0 });
+        v.push(hear(&gs[3], 0, 4));
+        v.push(Take);
+        v.push(Send);
+        out.push(v);
+    }
+    // T6: frames of a group heard inside the receive procedure of an uplink (RX1, RX2, before RX1, between the windows)
+    {
+        let g0 = McNet::new(0, a_, k(0x61), 0, 1000);
+        out.push(vec![
+            Setup { cmds: g0.setup_cmd(), via: 0 }, g0.marker(),
+            hear(&g0, 0, 0), Send, hear(&g0, 1, 1), Send, hear(&g0, 2, 2), hear(&g0, 3, 3), Take,
+            hear(&g0, 0, 0), hear(&g0, 3, 1), hear(&g0, 2, 2), hear(&g0, 4, 0), hear(&g0, 5, 1), Send, Take,
+        ]);
+    }
+    // seeded random walks over the table
+    for r in 0..nrandom {
+        let mut rng = StdRng::seed_from_u64(seed.wrapping_mul(7919) ^ (r as u64) << 8 ^ 0x6d63);
+        let addrs = [a_, b_, c_];
+        let mut net: Vec<Option<McNet>> = vec![None, None, None, None];
+        let mut gone: Vec<McNet> = vec![];
+        let mut v: Vec<McStep> = vec![];
+        let n = rng.gen_range(12..28);
+        for _ in 0..n {
+            let via = rng.gen_range(0..3u8);
+            match rng.gen_range(0..100) {
+                0..=24 => {
+                    // set up (or replace) a group; sometimes under an address another slot already uses
+                    let g = rng.gen_range(0..4u8);
+                    let min = *[0u32, 3, 65530, 0x1FFFA].get(rng.gen_range(0..4)).unwrap();
+                    let m = McNet::new(g, addrs[rng.gen_range(0..3)], k(rng.gen_range(1..6)), min, min + rng.gen_range(0..12));
+                    if let Some(old) = net[g as usize].replace(m.clone()) {
+                        gone.push(old);
+                    }
+                    let mut cmds = m.setup_cmd();
+                    if via == 0 && rng.gen_bool(0.3) {
+                        cmds.extend([0x01, rng.gen_range(0..16)]);
+                    }
+                    v.push(Setup { cmds, via });
+                    v.push(m.marker());
+                }
+                25..=34 => {
+                    let g = rng.gen_range(0..4u8);
+                    if let Some(old) = net[g as usize].take() {
+                        gone.push(old);
+                    }
+                    v.push(Setup { cmds: vec![0x03, g | if rng.gen_bool(0.2) { 0xf0 } else { 0 }], via });
+                }
+                35..=44 => v.push(Setup { cmds: vec![0x01, rng.gen_range(0..=255)], via }),
+                45..=49 => v.push(Setup { cmds: vec![0x00, 0x01, 0x0f, 0x00], via }),
+                50..=79 => {
+                    // a frame of a live group: the next counter, a later one, a repeated or an earlier one
+                    let live: Vec<usize> = (0..4).filter(|i| net[*i].is_some()).collect();
+                    if live.is_empty() {
+                        continue;
+                    }
+                    let i = live[rng.gen_range(0..live.len())];
+                    let m = net[i].as_mut().unwrap();
+                    let cnt = match rng.gen_range(0..10) {
+                        0..=4 => m.next,
+                        5..=6 => m.next.saturating_add(rng.gen_range(1..4)),
+                        7 => m.next.saturating_sub(1),
+                        8 => m.min,
+                        _ => m.max,
+                    };
+                    // (two slots under one address: the frame belongs to the lower slot, whose keys differ - the network
+                    // side's idea of `next` is only a source of interesting counters, the specification decides)
+                    if cnt >= m.next && cnt < m.max {
+                        m.next = cnt + 1;
+                    }
+                    let slot = if rng.gen_bool(0.6) { 4 } else { rng.gen_range(0..4u8) };
+                    let m = m.clone();
+                    v.push(hear(&m, cnt, slot));
+                }
+                80..=89 => {
+                    // a frame of a group that no longer exists (deleted or replaced)
+                    if gone.is_empty() {
+                        continue;
+                    }
+                    let m = gone[rng.gen_range(0..gone.len())].clone();
+                    v.push(hear(&m, m.next, 4));
+                }
+                90..=94 => v.push(Take),
+                _ => v.push(Send),
+            }
+        }
+        v.push(Take);
+        v.push(Send);
+        out.push(v);
+    }
+    out
 }
 
 /// `vh macreplay in=FILE`: re-drive a recorded history ({"ops":[...]}) on the current tree.
